@@ -174,7 +174,7 @@ const MUTATIONS: &[&str] = &[
     "drop_index", "swap_sigma", "sigma_other_msg", "stake_plus_one", "stake_total", "key_other_party",
     "key_and_stake_other_party", "path_flip", "path_indices", "path_drop_value", "dup_entry",
     "drop_entry", "signer_index", "swap_entries", "junk_sigma", "move_index_between_entries",
-    "sigma_and_key_other_party",
+    "sigma_and_key_other_party", "forged_entry_dup_path_index",
 ];
 
 fn mutate(c: &Ctx, agg: &mut Value, name: &str, r: &mut ChaCha20Rng) -> bool {
@@ -306,6 +306,34 @@ fn mutate(c: &Ctx, agg: &mut Value, name: &str, r: &mut ChaCha20Rng) -> bool {
             agg["signatures"][e][1][1] = json!(c.w.parties[q].1);
             agg["signatures"][e][0]["sigma"] = json!(c.sigma_m[q]);
             agg["signatures"][e][0]["signer_index"] = json!(c.slot(q));
+            true
+        }
+        "forged_entry_dup_path_index" => {
+            // one genuine entry + the same signature bound to a made-up (same key, inflated stake) entry that
+            // "wins" many more indices, both claiming the SAME tree position: the batch path lists the position
+            // twice with the genuine siblings interleaved with fillers
+            let Some(q) = party_of(agg, e) else { return false };
+            let slot = agg["signatures"][e][0]["signer_index"].as_u64().unwrap() as usize;
+            let total: u64 = c.w.parties.iter().map(|p| p.1).sum();
+            let huge = total.saturating_mul(40);
+            let have = idxs(agg, e);
+            let extra: Vec<u64> = (0..m).filter(|ix| !have.contains(ix) && c.won(q, *ix, huge)).collect();
+            if extra.is_empty() {
+                return false;
+            }
+            let tree = c.w.closed.to_merkle_tree::<<D as mithril_stm::MembershipDigest>::ConcatenationHash, mithril_stm::RegistrationEntryForConcatenation>();
+            let (values, _) = mithril_stm::verif::batch_path_parts(&mithril_stm::verif::merkle_tree_batch_path(&tree, vec![slot]));
+            let mut inter: Vec<Value> = vec![];
+            for v in values {
+                inter.push(json!(v));
+                inter.push(json!(vec![7u8; 32]));
+            }
+            let genuine = agg["signatures"][e].clone();
+            let mut forged = genuine.clone();
+            forged[0]["indexes"] = json!(extra);
+            forged[1][1] = json!(huge);
+            agg["signatures"] = json!([genuine, forged]);
+            agg["batch_proof"] = json!({"values": inter, "indices": [slot, slot], "hasher": null});
             true
         }
         "path_flip" => {
